@@ -53,12 +53,17 @@ def gen(ctx):
 
     for s, exp in EDGE:
         add("recv", s, "eof", exp)
+    for z in (b"0", b"00", b"000", b"0000000000000000000000"):
+        for n, payload in ((0, b""), (3, b"abc"), (10, b"OK\nOK\nxyz\n"), (12, b"binary: 2\nab")):
+            add("recv", b"size: 1\nbinary: " + z + str(n).encode() + b"\n" + payload + b"\nOK\nvolume: 1\nOK\n", "eof",
+                "resp[(73697a65:31)bin=" + (payload.hex() if payload else "-") + "]err[none]")
     for s, exp in EDGE_CONNECT:
         add("conn", s, "eof", exp)
     # lenient-number traps: every numeric position of the grammar with texts a sloppy integer parser would accept
     for v in g.numeric_variants(6):
         vb = v.encode()
-        add("recv", b"binary: " + vb + b"\nFOOBAR\nOK\n", "eof", "invalid" if vb not in (b"06", b"006") else None)
+        # a length written with leading zeros is the same number: the payload is still the six bytes after the header line
+        add("recv", b"binary: " + vb + b"\nFOOBAR\nOK\n", "eof", "invalid" if vb not in (b"06", b"006") else "resp[()bin=464f4f424152]err[none]")
         add("recv", b"ACK [" + vb + b"@0] {} x\n", "eof", "invalid" if vb not in (b"06", b"006") else None)
         add("recv", b"ACK [5@" + vb + b"] {} x\n", "eof", "invalid" if vb not in (b"06", b"006") else None)
     # non-ASCII where only ASCII letters are allowed: every 2-byte UTF-8 sequence of two lead bytes plus a sample of the others
